@@ -21,6 +21,10 @@ def special_configs(ctx):
         'maildir "%(src)s" {\n\tmatch date modified > 1 seconds and isdirectory "%(mdA)s" add-header "X-D" "1" flag !new\n}\n' % ctx,
         'maildir "%(src)s" {\n\tmatch all attachment {\n\t\tmatch all exec { "%(helper)s" "att" }\n\t}\n}\n' % ctx,
         'maildir "%(src)s" "%(mdB)s" {\n\tmatch all label "both" pass\n\tmatch all flags "T"\n}\n' % ctx,
+        # the same maildir met more than once in one run (several blocks, a path listed twice): under -d the messages are all still there the
+        # second time, and still nothing is done to them
+        'maildir "%(src)s" {\n\tmatch new move "%(mdA)s"\n\tmatch all discard\n}\nmaildir "%(src)s" {\n\tmatch all label "again" exec { "%(helper)s" "second" } move "%(mdB)s"\n}\n' % ctx,
+        'maildir { "%(src)s" "%(src)s" } {\n\tmatch all move "%(mdA)s" flag !new\n}\nmaildir "%(src)s" {\n\tmatch all discard\n}\n' % ctx,
     ]
 
 
@@ -186,7 +190,7 @@ def run(ck):
     for i in range(n):
         rules = confgen.gen_block(rng, 0, rng.choice([0, 1, 2]), atoms=confgen.NATOMS)
         confs.append(lambda ctx, sb, rules=rules: confgen.render_conf(rules, ctx))
-    for k in range(7):
+    for k in range(9):
         confs.append(lambda ctx, sb, k=k: special_configs(ctx)[k])
     for idx, c in enumerate(confs):
         one_run(ck, rng, stats, '-d', c, samples=samples)
@@ -233,7 +237,7 @@ def run(ck):
         'evaluations': stats['runs'],
         'distinct_nontrivial': stats['nontrivial'],
         'rule': 'random rule trees (confgen: and/or/!/parentheses/unparenthesised chains, nested blocks, actions move/flag/flags/label/add-header/discard/exec, '
-                'pass/break) plus 7 special configurations (missing destination, invalid back-reference, command condition + exec stdin + label, exec stdin body, '
+                'pass/break) plus 9 special configurations (the same maildir in several blocks / listed twice, missing destination, invalid back-reference, command condition + exec stdin + label, exec stdin body, '
                 'date+isdirectory, attachment block, two maildirs) over a population of 9 messages in new/cur; each with -d and with -n, a fifth also with -n and -d / -v combined in either order and spelling and with -d and repeated -v; stdin variants; -d / -n under TZ values of 255-300 characters and HOME / TMPDIR of PATH_MAX characters; 7 configurations whose real run '
                 'would fail (path too long after interpolation / as configured, missing destination, invalid back-reference, exec) in maildir and stdin mode. '
                 'non-trivial = a run that opened at least one message; distinct = distinct runs',
